@@ -11,8 +11,11 @@ ivars == <<vars, script, pc, obs>>
 
 RefSetKeyRet(side, alg, key) == IF AdmitDefined(alg, key) /\ Admit(side, alg, key) THEN 0 ELSE 1
 
+DummyBad == [base |-> "?", kty |-> NONE, bits |-> 0, crv |-> NONE, var |-> "a", priv |-> 0, alg |-> NONE, kid |-> NONE,
+             use |-> NONE, ops |-> <<>>, defect |-> <<>>, bad |-> 1]
 DocKds(op) == IF op.doc = "single" THEN SubSeq(op.keys, 1, 1)
-              ELSE IF op.doc \in {"keys", "keysextra"} THEN op.keys ELSE <<>>
+              ELSE IF op.doc \in {"keys", "keysextra"} THEN op.keys
+              ELSE IF op.doc \in {"nonjson", "anyraw"} THEN <<>> ELSE <<DummyBad>>
 
 IStep(op) ==
   CASE op.op = "Clock" -> Clock(op.now) /\ obs' = [k |-> "other"]
